@@ -75,7 +75,10 @@ def _shapes_c12_2(tier):
     (version, MAC, n, block) is always 0..255.  Everything else - all other
     body bytes, sequence number, content type - is symbolic."""
     combos = []
-    for ver in VERSIONS:
+    # TLS 1.0-1.2 take one code path (the version only enters the MAC input
+    # as two constant bytes): the thorough sweep over every n uses SSLv3 and
+    # TLS 1.2; the quick tier keeps all four versions at its few lengths
+    for ver in (VERSIONS if tier == "quick" else [(3, 0), (3, 3)]):
         for mac in ("md5", "sha1", "sha256", "sha384"):
             ds = DIGESTS[mac][0]
             if tier == "quick":
